@@ -49,11 +49,16 @@ def variable_after_measure(doc: dict, params: dict) -> bool:
     tr = doc["trace"]
     if step >= len(tr):
         return False
-    measured = any(r["op"]["op"] == "measure" and r.get("outcome") == "ok" for r in tr[:step])
-    if not measured:
+    VAR_OPS = ("add_var", "delay_var", "add_eom_pulse_var", "enable_eom_var")
+    k_meas = next((k for k, r in enumerate(tr[:step]) if r["op"]["op"] == "measure" and r.get("outcome") == "ok"), None)
+    if k_meas is None:
         return False
-    for r in tr[: step + 1]:
-        if r["op"]["op"] in ("add_var", "delay_var") and not r["op"].get("foreign"):
+    # the defect is specific to a sequence that was still a REGULAR one when it
+    # was measured: an own variable was used (successfully) only afterwards
+    if any(r["op"]["op"] in VAR_OPS and not r["op"].get("foreign") and r.get("outcome", "ok") == "ok" for r in tr[:k_meas]):
+        return False
+    for r in tr[k_meas + 1 : step + 1]:
+        if r["op"]["op"] in VAR_OPS and not r["op"].get("foreign"):
             return True
     return False
 
